@@ -132,6 +132,25 @@ pub fn handle(op: &str, a: &[&str]) -> Option<String> {
             let fb = FBase::new(Int::cast_from(n), u32_of(size)?);
             Some(format!("{},{}", fb.len(), fb.bound()))
         }
+        // consumer run: the real convolve_modn on `bits`-bit coefficients and size 2^k
+        // (answers `ok` when it returns; the values are C10's business).
+        ("convolve_run", [bits, k]) => {
+            use yamaquasi::arith_montgomery::ZmodN;
+            let bits = u32_of(bits)?;
+            let size = 1usize << u32_of(k)?;
+            if bits < 2 {
+                return None;
+            }
+            let n = make_n(bits, None)? | Uint::ONE;
+            let zn = ZmodN::new(n);
+            let p1: Vec<_> = (0..size)
+                .map(|i| zn.from_int(Uint::from(i as u64 + 1) % n))
+                .collect();
+            let p2 = p1.clone();
+            let mut res = vec![zn.zero(); size];
+            yamaquasi::arith_fft::convolve_modn(&zn, size, &p1, &p2, &mut res, 0);
+            Some("ok".to_string())
+        }
         // consumer run for classical QS: factor base of the size chosen by the real parameter
         // function, maxlarge from the real qsieve::max_large_prime, then one call of fbase::cofactor
         // (the routine every sieve report goes through) with that maxlarge.
